@@ -15,7 +15,7 @@ import (
 )
 
 func checkC15(c *Ctx) {
-	c.explainf("C15 decides: in every emission sequence of the syntax-quote generators (derived by abstract interpretation of the generator's code) each marker is closed by exactly one squash / vectorize / hashize at the same nesting, a splice explodes only under an open marker, and unquoted expressions are not compiled in tail position; errors of nested generation are propagated (see C05); at both macro expansion sites the macro is applied on the interpreter returned by Duplicate(), and Duplicate allocates fresh data, scope, address and loop stacks while sharing macros, symbol tables and the global scope; the reader sugar ^ ~ ~@ maps to syntaxQuote / unquote / unquote-splicing, the names the generator tests for; every lexer state that has read one rune beyond its own token re-dispatches that rune. It does not decide that an expansion equals an independent substitution.")
+	c.explainf("C15 decides: in every emission sequence of the syntax-quote generators (derived by abstract interpretation of the generator's code) each marker is closed by exactly one squash / vectorize / hashize at the same nesting, a splice explodes only under an open marker, and unquoted expressions are not compiled in tail position; errors of nested generation are propagated (see C05); at both macro expansion sites the macro is applied on the interpreter returned by Duplicate(), and Duplicate allocates fresh data, scope, address and loop stacks while sharing macros, symbol tables and the global scope; the reader sugar ^ ~ ~@ maps to syntaxQuote / unquote / unquote-splicing, the names the generator tests for; every lexer state that has read one rune beyond its own token re-dispatches that rune. The operand reader of the prefix operators drops comments (C15-OPERAND), defmac refuses every head the call generator compiles itself (C15-FORMS), and the prefix runes are sign contexts (C15-SIGN). It does not decide that an expansion equals an independent substitution.")
 	c.checkOperandNotComment("C15-OPERAND")
 	c.checkMacroNames("C15-FORMS")
 	c.checkPrefixSignContext("C15-SIGN")
